@@ -64,6 +64,8 @@ pub enum WStep {
     Zero,
     /// return ErrorKind::Interrupted
     Interrupted,
+    /// one hard error (BrokenPipe) for this call only: a transient transport error
+    Fail,
 }
 
 /// A writer that accepts only part of each write / fails at a given byte position.
@@ -73,12 +75,14 @@ pub struct AdvWriter {
     pub fail_at: Option<usize>,
     pub accepted: Rc<RefCell<Vec<u8>>>,
     pub calls: Rc<RefCell<u32>>,
+    /// number of hard errors returned so far
+    pub hard_errors: Rc<RefCell<u32>>,
 }
 
 impl AdvWriter {
     pub fn new(schedule: Vec<WStep>, fail_at: Option<usize>) -> (Self, Rc<RefCell<Vec<u8>>>) {
         let acc = Rc::new(RefCell::new(Vec::new()));
-        (AdvWriter { schedule, step: 0, fail_at, accepted: acc.clone(), calls: Rc::new(RefCell::new(0)) }, acc)
+        (AdvWriter { schedule, step: 0, fail_at, accepted: acc.clone(), calls: Rc::new(RefCell::new(0)), hard_errors: Rc::new(RefCell::new(0)) }, acc)
     }
 }
 
@@ -91,6 +95,7 @@ impl Write for AdvWriter {
         let have = self.accepted.borrow().len();
         if let Some(p) = self.fail_at {
             if have >= p {
+                *self.hard_errors.borrow_mut() += 1;
                 return Err(io::Error::new(io::ErrorKind::BrokenPipe, "injected write error"));
             }
         }
@@ -99,6 +104,10 @@ impl Write for AdvWriter {
         match st {
             WStep::Zero => Ok(0),
             WStep::Interrupted => Err(io::Error::new(io::ErrorKind::Interrupted, "injected EINTR")),
+            WStep::Fail => {
+                *self.hard_errors.borrow_mut() += 1;
+                Err(io::Error::new(io::ErrorKind::BrokenPipe, "injected transient write error"))
+            }
             WStep::Cap(c) => {
                 let mut n = buf.len().min(c.max(1) as usize);
                 if let Some(p) = self.fail_at {
